@@ -165,6 +165,27 @@ def to_sym(e, env):
                     if tail is not None:
                         return to_sym(tail, sub)
         raise Untranslatable("call %s" % A.unparse(e["func"]))
+    if k == "Struct" and getattr(env, "depth", 0) < 3:
+        # a shape built in place and converted (`Tree::from(Inverse { shape: x })`): read `impl From<T> for Tree`
+        # of the same file with the parameter's fields bound to the literal's
+        ty = (A.path_segs(e["path"]) or [None])[-1]
+        here = A.owner_fn(e)
+        path = (here or {}).get("_file")
+        if ty and path:
+            impls = [i for i in A.find_impls(path, self_ty="Tree", root=getattr(env, "root", None)) if (i.get("trait") or "").replace(" ", "") == "From<%s>" % ty]
+            if len(impls) == 1:
+                f = [x for x in impls[0]["items"] if x.get("k") == "Fn" and x["name"] == "from"]
+                if f and f[0].get("body"):
+                    params = [A.binding_name(i["pat"]) for i in f[0]["sig"]["inputs"] if isinstance(i, dict) and "pat" in i]
+                    if len(params) == 1 and params[0]:
+                        sub = env.copy()
+                        sub.vars = dict(env.vars)
+                        sub.depth = getattr(env, "depth", 0) + 1
+                        sub.vars[params[0]] = {x["name"]: to_sym(x["e"], env) for x in e["fields"]}
+                        tail = bind_lets(f[0]["body"]["stmts"], sub)
+                        if tail is not None:
+                            return to_sym(tail, sub)
+        raise Untranslatable("struct %s" % ty)
     raise Untranslatable(k)
 
 
